@@ -1,1 +1,148 @@
-//! placeholder
+//! Unit tests showing that the searcher finds something when there is something to find — without
+//! touching /repo: (1) cases with a deliberately wrong oracle, (2) local re-implementations of
+//! defects that used to be in the tree (see /verif/known_findings.json), run through the same
+//! corpora as the real cases.
+
+use crate::conv::*;
+use crate::ctx::{Ctx, Sink, call};
+use crate::{check, props};
+use crypto_bigint::{Limb, NonZero, Uint};
+use num_bigint::BigUint;
+use num_traits::Zero;
+
+fn ctx(prop: &str, case: &str) -> Ctx {
+    crate::ctx::install_silent_hook();
+    let mut c = Ctx::new(prop, 1, 300, 3);
+    c.sink = Sink::Buffer(Vec::new());
+    c.begin_case(case);
+    c
+}
+
+fn lines(c: &Ctx) -> Vec<String> {
+    match &c.sink {
+        Sink::Buffer(v) => v.clone(),
+        _ => vec![],
+    }
+}
+
+/// Wrong oracle: forgets that the remainder must be reduced when n is an exact multiple plus d-1
+/// ... simply: claims r = n mod d except that it reports d-1 as 0. Only inputs with n = q*d + d - 1
+/// (d > 1) expose it; uniformly random inputs never do, the property corpus does.
+#[test]
+fn wrong_division_oracle_is_caught() {
+    let mut c = ctx("C02", "U256::div_rem [wrong oracle]");
+    for (n, d) in props::c02::div_inputs(&mut c, 4, 4) {
+        if c.done() {
+            break;
+        }
+        if d.is_zero() {
+            continue;
+        }
+        let (x, y) = (bu::<4>(&n), NonZero::new(bu::<4>(&d)).unwrap());
+        let (q, mut r) = (&n / &d, &n % &d);
+        if d > BigUint::from(1u8) && r == &d - 1u32 && d.bits() > 64 {
+            r = BigUint::zero(); // the planted error
+        }
+        let got = call(|| x.div_rem(&y)).map(|(q, r)| (ub(&q), ub(&r)));
+        check!(c, got, (q, r); n, d);
+    }
+    assert!(c.total_fails >= 1, "planted oracle error not found");
+    let l = lines(&c);
+    assert!(!l.is_empty() && l.len() <= 3);
+    assert!(l[0].starts_with("{\"prop\": \"C02\", \"case\": \"U256::div_rem [wrong oracle]\", \"inputs\": {\"n\": \"0x"));
+    assert!(l[0].contains("\"expected\": ") && l[0].ends_with("\"panic\": null}"));
+}
+
+/// A panic inside the documented domain is a failure and carries message and location.
+#[test]
+fn panic_is_a_failure() {
+    let mut c = ctx("C11", "demo");
+    let x = 7u32;
+    let got: Result<u32, String> = call(|| {
+        if x == 7 {
+            panic!("boom {}", x)
+        }
+        x
+    });
+    check!(c, got, 7u32; x);
+    assert_eq!(c.total_fails, 1);
+    let l = lines(&c);
+    assert!(l[0].contains("\"got\": null"));
+    assert!(l[0].contains("\"panic\": \"boom 7 at src/selftest_wrong_oracle.rs:"));
+}
+
+/// In C11 mode value mismatches do not count, panics do.
+#[test]
+fn c11_mode_ignores_mismatch() {
+    let mut c = ctx("C11", "demo");
+    c.panic_only = true;
+    let x = 1u32;
+    check!(c, call(|| 2u32), 3u32; x);
+    assert_eq!(c.total_fails, 0);
+    check!(c, call(|| -> u32 { panic!("x") }), 3u32; x);
+    assert_eq!(c.total_fails, 1);
+}
+
+/// Known findings are printed with a tag and not counted.
+#[test]
+fn known_tag() {
+    let mut c = ctx("C14", "demo");
+    c.known = Some("F12");
+    let x = 1u32;
+    check!(c, call(|| 2u32), 3u32; x);
+    assert_eq!((c.total_fails, c.total_known), (0, 1));
+    assert!(lines(&c)[0].ends_with("\"known\": \"F12\"}"));
+}
+
+/// The pre-fix `mul_mod_special` (commit c0e16c2 repaired it): `(carry + 1)` computed in a word.
+/// Re-implemented here on top of the crate's public primitives; the C07 corpus must find an input
+/// where it differs from a*b mod (2^BITS - c).
+fn buggy_mul_mod_special<const L: usize>(a: &Uint<L>, b: &Uint<L>, c: Limb) -> Uint<L> {
+    let (lo, hi) = a.split_mul(b);
+    // lo + hi * c
+    let (mut acc, mut carry) = (lo, Limb::ZERO);
+    {
+        let mut i = 0;
+        let mut limbs = acc.to_limbs();
+        while i < L {
+            let (n, cy) = limbs[i].mac(hi.as_limbs()[i], c, carry);
+            limbs[i] = n;
+            carry = cy;
+            i += 1;
+        }
+        acc = Uint::new(limbs);
+    }
+    let (lo, carry) = {
+        let rhs = (carry.0.wrapping_add(1) as u128) * c.0 as u128; // the defect: wraps for carry = MAX
+        acc.adc(&Uint::from_u128(rhs), Limb::ZERO)
+    };
+    let (lo, _) = {
+        let rhs = carry.0.wrapping_sub(1) & c.0;
+        lo.sbb(&Uint::from_word(rhs), Limb::ZERO)
+    };
+    lo
+}
+
+#[test]
+fn historic_mul_mod_special_defect_is_found_by_c07_corpus() {
+    let mut c = ctx("C07", "U192::mul_mod_special [pre-fix re-implementation]");
+    c.iters = 2000;
+    let mut sane = 0u32;
+    for (a, b, cc) in props::c07::special_inputs(&mut c, 3) {
+        if c.done() {
+            break;
+        }
+        let p = pow2(192) - &cc;
+        let (x, y, l) = (bu::<3>(&a), bu::<3>(&b), bl(&cc));
+        let exp = (&a * &b) % &p;
+        // the re-implementation is the real algorithm except for the defect: it agrees with the
+        // crate almost everywhere
+        if buggy_mul_mod_special(&x, &y, l) == x.mul_mod_special(&y, l) {
+            sane += 1;
+        }
+        let got = call(|| buggy_mul_mod_special(&x, &y, l)).map(|r| ub(&r));
+        check!(c, got, exp; a, b, cc);
+    }
+    assert!(sane > 100, "re-implementation does not track the real function");
+    assert!(c.total_fails >= 1, "the C07 special-modulus corpus does not reach the historic defect");
+}
